@@ -131,14 +131,15 @@ def judge_levels(ctx, case):
     lv = [present[i] for i in perm]
     ref = None if case.get("ref") is None else lv[case["ref"]]
     nested = fn.startswith("C(")
-    inner = fn[2:] if nested else fn
+    relevel = fn.endswith("*")  # C(T(f, levels=l1), levels=lv): the outer levels= decides order and default reference
+    inner = fn[2:].rstrip("*") if nested else fn
     args = f"{var}"
     if ref is not None:
         args += f", {ref!r}" if inner in ("T", "S") else (f", Treatment({ref!r})" if inner == "C" else "")
-    args += ", levels=lv"
+    args += ", levels=l1" if relevel else ", levels=lv"
     call = f"{inner}({args})"
     if nested:
-        call = f"C({call})"  # the outer C() must inherit coding, reference and level order from the inner call
+        call = f"C({call}, levels=lv)" if relevel else f"C({call})"  # the outer C() inherits the coding (and, unless it is given its own, the level order) from the inner call
     fn = inner
     formula = f"y ~ {'1' if case['intercept'] else '0'} + {call}"
     nt = lv != sorted(lv) or (n >= 3 and case.get("ref") not in (None, 0, n - 1))
@@ -146,7 +147,7 @@ def judge_levels(ctx, case):
     full = dict(case, formula=formula, lv=[str(x) for x in lv])
     try:
         with core.Guard():
-            dm = design_with(formula, frame, lv=lv)
+            dm = design_with(formula, frame, lv=lv, l1=lv[1:] + lv[:1])
         labels = list(dm.common.as_dataframe().columns)
         x = np.asarray(dm.common.design_matrix, dtype=float)
     except Exception as e:  # pylint: disable=broad-except
@@ -390,7 +391,7 @@ def _object_cases():
 def _levels_cases(maxn):
     for n in range(2, maxn + 1):
         for perm in itertools.permutations(range(n)):
-            for fn in ("C", "T", "S", "C(T", "C(C", "C(S"):
+            for fn in ("C", "T", "S", "C(T", "C(C", "C(S", "C(T*", "C(S*"):
                 for ic in (True, False):
                     for is_int in (False, True):
                         yield {"kind": "levels", "fn": fn, "perm": list(perm), "n": n, "int": is_int, "intercept": ic, "ref": None}
